@@ -226,6 +226,7 @@ func region(c *canned, k int) string {
 type modEvent struct {
 	Seq     int
 	Status  int
+	Method  string
 	Path    string
 	Warning string
 }
@@ -239,11 +240,11 @@ func (m *recMod) ModifyResponse(res *http.Response) error {
 	m.mu.Lock()
 	defer m.mu.Unlock()
 	seq := len(m.log) + 1
-	p := ""
+	p, meth := "", ""
 	if res.Request != nil && res.Request.URL != nil {
-		p = res.Request.URL.Path
+		p, meth = res.Request.URL.Path, res.Request.Method
 	}
-	m.log = append(m.log, modEvent{seq, res.StatusCode, p, res.Header.Get("Warning")})
+	m.log = append(m.log, modEvent{seq, res.StatusCode, meth, p, res.Header.Get("Warning")})
 	res.Header.Set("X-Resmod", strconv.Itoa(seq))
 	return nil
 }
@@ -304,7 +305,18 @@ func runTruncBatch(r *vh.Run, child int, tcp bool) {
 	}
 }
 
-var faultKinds = []string{"refused", "dialerr", "accept-close", "garbage-accept", "garbage", "status-garbage"}
+// "-then-up": the first dial of the address fails, later dials reach a healthy
+// origin, and the follow-up asks for the *same* address. "connect-*": the
+// faulted request is a CONNECT (no MITM) whose dial fails.
+var faultKinds = []string{"refused", "dialerr", "dial-timeout", "accept-close", "garbage-accept", "garbage", "status-garbage",
+	"refused-then-up", "dialerr-then-up", "dial-timeout-then-up", "connect-refused", "connect-dialerr", "connect-dial-timeout"}
+
+// dialTimeout is a timeout-class dial error (net.Error with Timeout() == true).
+type dialTimeout struct{}
+
+func (dialTimeout) Error() string   { return "i/o timeout" }
+func (dialTimeout) Timeout() bool   { return true }
+func (dialTimeout) Temporary() bool { return true }
 
 func runFaultBatch(r *vh.Run) {
 	n := r.Pick(40, 500)
@@ -395,25 +407,49 @@ func runFaultCase(r *vh.Run, c faultCase) {
 	}
 	var bad *h1x.Origin
 	faultHost := "origin.test"
-	switch c.Fault {
-	case "refused":
+	followHost := "origin.test"
+	isConnect := strings.HasPrefix(c.Fault, "connect-")
+	base := strings.TrimSuffix(strings.TrimPrefix(c.Fault, "connect-"), "-then-up")
+	switch base {
+	case "refused", "dialerr", "dial-timeout":
 		faultHost = "bad.test"
-		if c.TCP {
-			// a real refused connection: a loopback port that was just released
-			l, err := net.Listen("tcp", "127.0.0.1:0")
-			if err == nil {
-				addr := l.Addr().String()
-				l.Close()
-				env.Route("bad.test:80", func() (net.Conn, error) { return net.Dial("tcp", addr) })
-			}
-		} else {
-			env.Route("bad.test:80", func() (net.Conn, error) {
+		var fail func() (net.Conn, error)
+		switch base {
+		case "refused":
+			fail = func() (net.Conn, error) {
 				return nil, &net.OpError{Op: "dial", Net: "tcp", Err: syscall.ECONNREFUSED}
-			})
+			}
+			if c.TCP {
+				// a real refused connection: a loopback port that was just released
+				if l, err := net.Listen("tcp", "127.0.0.1:0"); err == nil {
+					addr := l.Addr().String()
+					l.Close()
+					fail = func() (net.Conn, error) { return net.Dial("tcp", addr) }
+				}
+			}
+		case "dialerr":
+			fail = func() (net.Conn, error) { return nil, errors.New("harness: custom dial failure " + nonce) }
+		default:
+			fail = func() (net.Conn, error) { return nil, &net.OpError{Op: "dial", Net: "tcp", Err: dialTimeout{}} }
 		}
-	case "dialerr":
-		faultHost = "bad.test"
-		env.Route("bad.test:80", func() (net.Conn, error) { return nil, errors.New("harness: custom dial failure " + nonce) })
+		if strings.HasSuffix(c.Fault, "-then-up") {
+			// the address recovers after its first failed dial
+			followHost = "bad.test"
+			var mu sync.Mutex
+			failed := false
+			env.Route("bad.test:80", func() (net.Conn, error) {
+				mu.Lock()
+				first := !failed
+				failed = true
+				mu.Unlock()
+				if first {
+					return fail()
+				}
+				return env.Origin.Dial()
+			})
+		} else {
+			env.Route("bad.test:80", fail)
+		}
 	case "accept-close", "garbage-accept":
 		faultHost = "bad.test"
 		bad, _ = h1x.NewOrigin(c.TCP, 64<<10)
@@ -444,7 +480,10 @@ func runFaultCase(r *vh.Run, c faultCase) {
 	}
 	reqW := mkReq("origin.test", "/healthy/W")
 	reqA := mkReq(faultHost, "/fault/"+nonce)
-	reqB := mkReq("origin.test", "/healthy/B")
+	if isConnect {
+		reqA = []byte("CONNECT " + faultHost + ":80 HTTP/1.1\r\nHost: " + faultHost + ":80\r\n\r\n")
+	}
+	reqB := mkReq(followHost, "/healthy/B")
 
 	cl, err := env.L.Dial(nil)
 	if err != nil {
@@ -602,7 +641,7 @@ func judge(c faultCase, can *canned, nonce string, v h1x.View, mod *recMod, sent
 		}
 		seq, _ := strconv.Atoi(first(mA.Get("X-Resmod")))
 		ev, ok := mod.get(seq)
-		if !ok || ev.Status != 502 || !strings.Contains(ev.Path, "/fault/") || ev.Warning == "" {
+		if !ok || ev.Status != 502 || !(strings.Contains(ev.Path, "/fault/") || (strings.HasPrefix(kind, "connect-") && ev.Method == "CONNECT")) || ev.Warning == "" {
 			add("502-not-modified", kind, fmt.Sprintf("the 502 did not pass through the response modifier with its Warning header (X-Resmod=%q, modifier saw %+v)", mA.Get("X-Resmod"), ev))
 			return false
 		}
